@@ -376,6 +376,53 @@ def _check_server_object(ctx: Ctx) -> None:
                 if isinstance(recv, ast.Attribute) and isinstance(recv.value, ast.Name) and recv.value.id == "self" and recv.attr.startswith("_") and recv.attr not in ("_impl",):
                     n_store += 1
                     ctx.fail("RF-WHO", f"server-attribute-mutated-in-serve-path:{recv.attr}", m, n, f"`{txt(n)[:70]}` mutates a container on the shared RpcServer while serving a connection")
+    # objects of repository classes created once in __init__ and mutated through their own methods while serving
+    # (`sink = self._log_sink; sink.reset()`): per-call state parked on the shared server, reached through an alias
+    init_m = ci.methods.get("__init__")
+    shared_objs: dict[str, tuple[object, set[str]]] = {}
+    if init_m is not None:
+        for n in walk_scope(init_m.node):
+            if isinstance(n, (ast.Assign, ast.AnnAssign)) and n.value is not None and isinstance(n.value, ast.Call):
+                tg = n.targets if isinstance(n, ast.Assign) else [n.target]
+                for t in tg:
+                    if isinstance(t, ast.Attribute) and isinstance(t.value, ast.Name) and t.value.id == "self":
+                        for callee in ctx.res.resolve(init_m, n.value, heuristic=False):
+                            oc = callee.cls if callee.name == "__init__" else None
+                            if oc is None:
+                                continue
+                            mut: set[str] = set()
+                            for mname, mf in oc.methods.items():
+                                if mname == "__init__":
+                                    continue
+                                for x in walk_scope(mf.node):
+                                    tg2 = x.targets if isinstance(x, ast.Assign) else [x.target] if isinstance(x, (ast.AnnAssign, ast.AugAssign)) else []
+                                    if any(isinstance(y, ast.Attribute) and isinstance(y.value, ast.Name) and y.value.id == "self" for t2 in tg2 for y in ([t2] if not isinstance(t2, ast.Subscript) else [t2.value])):
+                                        mut.add(mname)
+                                    if isinstance(x, ast.Call) and isinstance(x.func, ast.Attribute) and x.func.attr in MUTATORS and isinstance(x.func.value, ast.Attribute) and isinstance(x.func.value.value, ast.Name) and x.func.value.value.id == "self":
+                                        mut.add(mname)
+                            if mut:
+                                shared_objs[t.attr] = (oc, mut)
+    for m in methods:
+        if m.name == "__init__":
+            continue
+        alias: dict[str, str] = {}
+        for n in walk_scope(m.node):
+            if isinstance(n, ast.Assign) and isinstance(n.value, ast.Attribute) and isinstance(n.value.value, ast.Name) and n.value.value.id == "self" and n.value.attr in shared_objs:
+                for t in n.targets:
+                    if isinstance(t, ast.Name):
+                        alias[t.id] = n.value.attr
+        for n in walk_scope(m.node):
+            if not (isinstance(n, ast.Call) and isinstance(n.func, ast.Attribute)):
+                continue
+            recv = n.func.value
+            attr = alias.get(recv.id) if isinstance(recv, ast.Name) else recv.attr if isinstance(recv, ast.Attribute) and isinstance(recv.value, ast.Name) and recv.value.id == "self" and recv.attr in shared_objs else None
+            if attr is None or n.func.attr not in shared_objs[attr][1]:
+                continue
+            if BINDING_LOCK in LockSets(m).held(n):
+                continue
+            n_store += 1
+            ctx.fail("RF-WHO", f"server-attribute-mutated-in-serve-path:{attr}", m, n, f"`{txt(n)[:70]}` mutates `self.{attr}`, an object created once per RpcServer, while serving a call: threaded socket servers "
+                     "run every connection on the same RpcServer, so per-call state kept in it (buffers, writers) is shared between connections")
     ctx.require_count("RF-WHO", n_store, 2, "stores to RpcServer attributes in the serve path (the transport binding)")
     ctx.hold("RF-WHO", "server-attributes-written-only-for-binding", serve, None, f"{len(methods)} RpcServer methods reachable from serve(): the only attribute stores are the transport binding")
 
